@@ -868,7 +868,9 @@ fn case_wal(prop: &str, sc: &mut Scratch, mode: Mode, max: u64, ops: &[WOp], mut
             c.msg = format!("recover() returns {} of the {} records the commit markers cover", got.len(), want.len());
             if prop == "C05" {
                 c.kid = Some("C05-K4".into());
-                c.kcoq = Some(format!("kc05_4_wal {} {} {}", tt, files_term(&run.files), meta_t));
+                // the class is decided on the operations (a skipped file may already have been deleted by
+                // truncate_old_logs, so the files alone do not show it)
+                c.kcoq = Some(format!("kc05_4_wal {} {} {} || kc05_4_ops {} {} {}", tt, files_term(&run.files), meta_t, tt, cfg, ops_t));
             }
         }
     }
